@@ -127,10 +127,17 @@ func VerifHarness_C02_par() {
 	// history: two application messages already sent (numbers 1, 2), so that a ResendRequest replays something
 	r.s.send(c02App("H1"))
 	r.s.send(c02App("H2"))
+	N := 3
+	if ndBool("history-ends-with-admin-message") {
+		// the replay then ends with a closing gap fill
+		hb := NewMessage()
+		hb.Header.SetString(tagMsgType, "0")
+		r.s.send(hb)
+		N = 4
+	}
 	lg.sent = nil
 	lg.notStored = 0
 	r.drain()
-	N := 3
 	third := verifConc(ndInt("third-thread", 0, 2+verifTier()))
 	k := 2
 	threads := []func(){
@@ -146,7 +153,7 @@ func VerifHarness_C02_par() {
 		threads = append(threads, func() {
 			req := r.inbound("2", 5)
 			req.Body.SetInt(tagBeginSeqNo, 1)
-			req.Body.SetInt(tagEndSeqNo, 2)
+			req.Body.SetInt(tagEndSeqNo, 0)
 			r.s.fixMsgIn(r.s, req)
 		})
 	case 3:
